@@ -27,6 +27,7 @@ func init() {
 const mc = "mod/modcache."
 
 func checkC16(c *Ctx) {
+	c.checkFieldWriters("ownership.field-writers", "mod/modcache", "Cache", map[string][]string{"dir": {"New"}, "reg": {"New"}})
 	// errcheck-style baseline: a newly discarded error in the package is a dropped protocol/validation step
 	c.checkErrorDiscipline("errors.no-new-dropped-error", "mod/modcache", map[string]string{
 		"(*Cache).Fetch|os.ReadDir": "listing stale temp directories is best effort (a missing parent simply lists nothing)",
